@@ -197,7 +197,7 @@ func c11r3(c *Ctx, id string) {
 	for _, ci := range callsIn(sf.rebalance, sf.close) {
 		ok := false
 		allInstrs(sf.rebalance, func(in ssa.Instruction) {
-			if st, isSt := in.(*ssa.Store); isSt && fieldOfAddr(st.Addr) == bal && w.Origin(st.Val) == "const(true)" && dominatesInstr(st, ci) {
+			if fl, _, val := flagWrite(in); fl != nil && fl == bal && w.Origin(val) == "const(true)" && dominatesInstr(in, ci) {
 				ok = true
 			}
 		})
@@ -230,9 +230,9 @@ func c11r3(c *Ctx, id string) {
 	}
 	nb := 0
 	allInstrs(sf.timerFn, func(in ssa.Instruction) {
-		if st, isSt := in.(*ssa.Store); isSt && fieldOfAddr(st.Addr) == bal && w.Origin(st.Val) == "const(false)" {
+		if fl, _, val := flagWrite(in); fl != nil && fl == bal && w.Origin(val) == "const(false)" {
 			nb++
-			c.Check(open != nil && dominatesInstr(open, st), id, "flag-after-open@"+fname(sf.timerFn), in.Pos(), "balancing←false only after Open returned", "balancing is lowered before the stream has been reopened")
+			c.Check(open != nil && dominatesInstr(open, in), id, "flag-after-open@"+fname(sf.timerFn), in.Pos(), "balancing←false only after Open returned", "balancing is lowered before the stream has been reopened")
 		}
 	})
 	if nb == 0 {
